@@ -394,6 +394,13 @@ def dropSurplus (uniq : List Int) : List Int → Nat → PhaseList → PhaseList
     if uniq.contains i then dropSurplus uniq rest (k + 1) d
     else dropSurplus uniq rest k (d.filter fun e => !(e.1 == i))
 
+/-- `phase_dict[i] = phase_list[i] if i in phase_ids else Phase(...)`: the entry created for id `i` of the
+data when the caller's list has fewer phases than the data has ids -/
+def fillFor (pl : PhaseList) (i : Int) : Int × Phase :=
+  match (if (PhaseList.ids pl).contains i then PhaseList.dictGet pl i else none) with
+  | some p => (i, p)
+  | none => (i, Phase.dflt)
+
 /-- reconciliation of the caller's (deep-copied) phase list with the sorted unique non-negative... ids
 `uniq` of the data, as written in `CrystalMap.__init__` -/
 def reconcile (uniq : List Int) (pl : PhaseList) : PhaseList :=
@@ -402,10 +409,7 @@ def reconcile (uniq : List Int) (pl : PhaseList) : PhaseList :=
     if pids.length > uniq.length then
       dropSurplus uniq pids.reverse (pids.length - uniq.length) pl
     else if pids.length < uniq.length then
-      PhaseList.ofDict (uniq.map fun i =>
-        match (if pids.contains i then PhaseList.dictGet pl i else none) with
-        | some p => (i, p)
-        | none => (i, Phase.dflt))
+      PhaseList.ofDict (uniq.map (fillFor pl))
     else pl
   -- `phase_list._dict = dict(zip(new_ids, phase_list._dict.values()))`
   PhaseList.ofPairs (uniq.zip (pl1.map (·.2)))
